@@ -55,7 +55,9 @@ ROWSELS = [("slice", 1, None, None), ("slice", None, None, 2), ("slice", None, N
            ("list", (0,)), ("list", (1, 0)), ("list", ()), ("maskall",), ("maskalt",), ("regex", "a.*"), ("regex", "zz"),
            ("int", 0), ("head", 1), ("tail", 2), ("neg",),
            # integer ARRAYS as selectors: a fresh one with a negative entry, and a column of the table itself (shares its memory)
-           ("intarr", (-1, 0)), ("bycol", "prev")]
+           ("intarr", (-1, 0)), ("bycol", "prev"),
+           # several selectors at once: rows[s1, s2] (documented as rows[s1].rows[s2])
+           ("multi", "rev_tail"), ("multi", "mask_first")]
 COLSELS = ["x", "x y", ["y"], "x+y", "x+2*y", "o", ["x", "x*x"], "m y", "sign*2", ["sign", "x*sign"]]
 
 
@@ -64,7 +66,7 @@ def universe():
     ops += [("cols", c) for c in COLSELS]
     ops += [("add",), ("mul", 1), ("mul", 2), ("concat",), ("copy",), ("t",),
             ("setcol", "x", "double"), ("setcol", "y", "const"), ("newcol", "z"), ("setscalar",), ("setcell", "x"), ("peek",),
-            ("concat_sub",), ("evalexpr",)]
+            ("concat_sub",), ("evalexpr",), ("concat_any",)]
     return ops
 
 
@@ -112,6 +114,8 @@ class System(simple.SimpleSystem):
                     continue
                 if op[1] == "regex" and m.index is None:
                     continue
+                if op[1] == "multi" and n == 0:
+                    continue
                 if op[1] == "intarr" and any(not -n <= p < n for p in op[2]):
                     continue
                 if op[1] == "bycol" and (op[2] not in m.cols or n == 0 or
@@ -127,6 +131,9 @@ class System(simple.SimpleSystem):
                     continue
             elif k == "concat_sub":
                 if m.index != "name" or "x" not in m.cols or n * 2 > 12:
+                    continue
+            elif k == "concat_any":
+                if m.index == "name":
                     continue
             elif k == "evalexpr":
                 if "x" not in m.cols or "y" not in m.cols or not all(isinstance(v, (int, float)) for v in m.cols["x"] + m.cols["y"]):
@@ -178,6 +185,13 @@ class System(simple.SimpleSystem):
             elif kind == "bycol":
                 sel = t[op[2]]                       # the column array itself
                 pos = [p % n for p in m.cols[op[2]]]
+            elif kind == "multi":
+                if op[2] == "rev_tail":
+                    sel = (slice(None, None, -1), slice(1, None))
+                    pos = allpos[::-1][1:]
+                else:
+                    sel = (np.ones(n, dtype=bool), [0])
+                    pos = allpos[:1]
             elif kind == "head":
                 pos = allpos[:op[2]]
                 sel = None
@@ -244,6 +258,13 @@ class System(simple.SimpleSystem):
             m.order = None
             m.scalars = None
             m.index = "name"
+        elif k == "concat_any":
+            # the class method on tables whose index column is not called 'name': it may refuse (ValueError, no table produced);
+            # whatever it does produce is a table like any other
+            try:
+                live["concat_any"] = Table.concatenate([t, t])
+            except ValueError:
+                live["concat_any"] = None
         elif k == "evalexpr":
             live["expr_value"] = (list(t["x+2*y"]), [a + 2 * b for a, b in zip(m.cols["x"], m.cols["y"])])
         elif k == "copy":
@@ -337,6 +358,8 @@ class System(simple.SimpleSystem):
                 return f"t = t.rows[{op[2]}:{op[3]}:{op[4]}]".replace("None", "")
             if kind == "list":
                 return f"t = t.rows[{list(op[2])!r}]"
+            if kind == "multi":
+                return "t = t.rows[::-1, 1:]" if op[2] == "rev_tail" else "t = t.rows[np.ones(len(t), bool), [0]]"
             if kind == "maskall":
                 return "t = t.rows[np.ones(len(t), bool)]"
             if kind == "maskalt":
@@ -354,6 +377,8 @@ class System(simple.SimpleSystem):
             return f"t = t * {op[1]}"
         if k == "concat":
             return "t = Table.concatenate([t, t])"
+        if k == "concat_any":
+            return "Table.concatenate([t, t])   # index column not called 'name': refused, or a well-formed table"
         if k == "copy":
             return "t = t._copy()"
         if k == "t":
@@ -392,6 +417,13 @@ class System(simple.SimpleSystem):
             issues.append(self.issue(hist, op, f"selecting rows changed the selector array handed in: {sc[0]!r} -> {sc[1]!r}"))
         # every table produced earlier in the history is still a well-formed table with the columns and length it had
         # (cell VALUES may change through shared arrays; that is not claimed by the property)
+        ca = live.pop("concat_any", None)
+        if ca is not None:
+            pr = rect_problems(ca)
+            if pr:
+                issues.append(self.issue(hist, op, "Table.concatenate([t, t]) produced a table that is not well formed: " + pr[0],
+                                         {"index": ca._index, "col_names": list(ca._col_names)}))
+                return issues
         ev = live.pop("expr_value", None)
         if ev is not None and [float(a) for a in ev[0]] != [float(b) for b in ev[1]]:
             issues.append(self.issue(hist, op, f"t['x+2*y'] = {ev[0]!r}, element-wise value is {ev[1]!r}"))
